@@ -375,9 +375,12 @@ where
             lists.push((format!("position {k} repeated at the end"), l));
         }
         for (what, list) in lists {
-            for bad_root in [false, true] {
+            // (the commitment: the right one, another layer's, and the all-zero digest - what an error of the root computation must
+            // never be mistaken for)
+            for root_kind in 0..3usize {
+                let bad_root = root_kind != 0;
                 let mk = || DefaultVerifierChannel::<B, H>::new(proof.clone(), commitments.clone(), domain, N).unwrap();
-                let commitment = if bad_root { commitments[1] } else { commitments[0] };
+                let commitment = match root_kind { 0 => commitments[0], 1 => commitments[1], _ => <H::Digest as Default>::default() };
                 let reference = catch_unwind(AssertUnwindSafe(|| {
                     let mut c = mk();
                     let layer_proof = c.take_next_fri_layer_proof();
